@@ -675,6 +675,11 @@ def hist_query(tab, pna, al, o, raw):
                      [float(2.0 ** a) for a in art], cols, [float(x) for x in params["velocity"]]]
     if f == "tm":
         req = "q tm %s %s" % (W.b(bool(o.get("ro"))), tail)
+        if not knots_of(tab, pna, al, bool(o.get("ro"))):
+            # no matched note is left to build a time map from (e.g. only a grace note remains and ornaments are
+            # removed): the code raises inside scipy, the model has an empty knot list, the property is silent -
+            # not a query of the history (thorough tier, seed 11: a lone model/implementation disagreement)
+            return None
         if raw is None:
             return req, "err"
         us = [float(u) for u, _ in knots_of(tab, pna, al, bool(o.get("ro")))]
